@@ -238,7 +238,9 @@ func (r *Runtime) builtinJSON_stringify(call FunctionCall) Value {
 			num = int64(i)
 			isNum = true
 		} else if f, ok := spaceValue.(valueFloat); ok {
-			num = int64(f)
+			if f >= 1 { // not for NaN; clamp before converting, int64(f) is undefined beyond 2^63
+				num = int64(math.Min(float64(f), 10))
+			}
 			isNum = true
 		}
 		if isNum {
